@@ -107,6 +107,17 @@ HARNESSES.append(
          backends=["default", "kissat"],
          bound="2 groups of 8 blocks (the last 5 / 2 long), first data block 1 / 0, every bit of both bitmaps, every descriptor byte, "
                "superblock count, ro_compat and fs->flags symbolic; e2fsck -y, then flush + reload + second run"))
+HARNESSES.append(
+    dict(name="p5inodes", src="../C02/p5inodes.c", extra_src=["lib/ext2fs/blknum.c"],
+         funcs=["check_inode_bitmaps", "print_bitmap_problem", "ext2fs_bg_free_inodes_count", "ext2fs_bg_free_inodes_count_set", "ext2fs_bg_used_dirs_count_set",
+                "ext2fs_bg_flags_clear"],
+         configs=[{"ANSWER": 1, "NG": 2, "DSZ": 32, "CSUM": 1}, {"ANSWER": 1, "NG": 2, "DSZ": 32, "CSUM": 0},
+                  {"ANSWER": 1, "NG": 2, "DSZ": 32, "CSUM": 1, "SECOND": None}],
+         cbmc_flags=["--object-bits", "10"],
+         unwind=4, unwindset=P5_UW + ["check_inode_bitmaps.0:18", "check_inode_bitmaps.1:2", "check_inode_bitmaps.2:4"],
+         backends=["default", "kissat"],
+         bound="2 groups of 8 inodes, every bit of inode_used_map / inode_dir_map / fs->inode_map, every descriptor byte, "
+               "s_free_inodes_count and fs->flags symbolic; with and without group-descriptor checksums; e2fsck -y, flush + reload, second run"))
 MANIFEST = {
     "text": "Kernel-level slice (partial). Bounded-exhaustive: (1) the fix_problem() protocol over every entry of the real problem_table, every "
             "latch state and flag word: 'no' un-marks valid unless PR_NO_OK, 'yes' sets PROBLEMS_FIXED unless PR_NOT_A_FIX, -n never fixes and "
